@@ -1,5 +1,7 @@
 """C01 — every finished span of a sampled trace is delivered exactly once (default configuration)."""
 import seqcheck
+import seqrun
+from props import c09
 
 
 def knobs(r, i):
@@ -7,7 +9,21 @@ def knobs(r, i):
 
 
 def run(v, tier, seed, replay):
-    seqcheck.run(v, tier, seed, replay, "C01", ["C01"], tree_oracles=["no_panic", "exactly_once", "tree", "ids"], knobs=knobs,
+    cases, impl, model = seqcheck.run(v, tier, seed, replay, "C01", ["C01"], tree_oracles=["no_panic", "exactly_once", "tree", "ids"], knobs=knobs,
                  n_quick=(600, 150), n_thorough=(60000, 10000),
                  assumptions=["'within about one report interval' is wall-clock: the background collector is `loop { cycle; sleep(interval) }`, one cycle suffices by C01_cycle_reports_everything_once; the interval itself is measured by the C18 tier, not proved",
                               "omissions permitted by C09 (full queue, per-scope limits) do not occur in these programs"])
+    if not replay and not v.violations:
+        scen = {"big-trace-%d" % 0: c09.sc_big_trace(0), "recovery-%d" % 0: c09.sc_recovery(0)}
+        tags = list(scen)
+        s_impl = seqrun.run_impl([scen[t] for t in tags], jobs=2)
+        s_model = seqrun.run_model([scen[t] for t in tags])
+        for tag, bad in c09.check_scenarios({t: (scen[t], s_impl[i]) for i, t in enumerate(tags)})[:2]:
+            v.violation(bad, {"program": scen[tag][:60] + ["…"] + scen[tag][-8:], "scenario": tag, "stream": "wild", "implementation_transcript_tail": [seqrun.strip_times(x)[:300] for x in s_impl[tags.index(tag)][-6:]]})
+        if not v.violations and s_model:
+            for i, t in enumerate(tags):
+                k = seqrun.first_mismatch(s_impl[i], s_model[i])
+                if k is not None:
+                    v.violation("scenario %s: model/implementation correspondence broken at %r" % (t, scen[t][k] if k < len(scen[t]) else "<end>"), {"scenario": t, "line": k}, found_input=False, tag="corr-scen")
+                    break
+        v.coverage["scenarios"] = tags
